@@ -1,10 +1,28 @@
 /-
 Model of `llvm_profiles_to_lcov` (src/llvm_tools.rs) and of the consumer arm that feeds its result
-into the aggregate (src/lib.rs, Profraw/Profdata): the merge tool gets one line per profile on
-stdin, every binary is exported once, a failing export is dropped (warning), every exported lcov
-is parsed (`Lcov.parse`) and the file records are added to the result map (`addResults`).
-The tools themselves (llvm-profdata, llvm-cov) are parameters: `export_ b` is what the export of
-binary `b` printed, or `none` when it failed.
+into the aggregate (src/lib.rs, Profraw/Profdata).
+
+* The merge tool gets one `1,<path>` line per profile on stdin (`-f -`; since fix 4f2eb74 — before
+  it the bare path was written, `mergeStdinOld`). `<path>` is `OsStr::to_string_lossy`.
+* What `llvm-profdata merge -f` makes of such a list is modelled from its source
+  (llvm-profdata.cpp, LLVM 14, `parseInputFilenamesFile` / `parseWeightedFile`): the buffer is split
+  at '\n' and EMPTY pieces are dropped (the piece after the last newline counts when it is not
+  empty); every piece is trimmed of `" \t\v\f\r"` on both sides; a trimmed piece starting with '#'
+  is a comment; one without a comma is a file of weight 1; otherwise the text before the FIRST
+  comma is the weight (`StringRef::getAsInteger(10, uint64_t)`: decimal digits only, non-empty, no
+  sign, must fit 64 bits; then `< 1` is rejected too) and everything after it, untrimmed, is the
+  file name. A bad weight ends the tool with "input weight must be a positive integer" (`none`).
+  Not modelled: the name `-` (stdin), a name that is a directory (walked recursively), and that
+  a name that does not exist ends the tool as well (`resolve`, given an existence test).
+* every binary `find_binaries` returned is exported once against the merged profile THIS call
+  wrote; a failing export is dropped (warning); every exported lcov is parsed (`Lcov.parse`) and the
+  file records are added to the result map (`addResults`).
+The tools themselves are parameters (`Tools`): what the merge of a parsed list writes to its `-o`
+file, and what the export of a binary against a merged profile prints (`none` = it failed).
+`profilesToLcov` returns, besides the function's result, the LOG of the tool invocations it made;
+the harness records the same log from the stand-in tools (argv, raw stdin bytes, and the content of
+the `--instr-profile` file at the moment of the export).
+Core Lean only.
 -/
 import GrcovModel.Lcov
 namespace Grcov.LlvmTools
@@ -12,15 +30,122 @@ open Grcov AList
 
 abbrev Bytes := List Nat
 
-/-- what is written to the merge tool's stdin: every path followed by a newline -/
-def mergeStdin (profiles : List Bytes) : Bytes := profiles.flatMap fun p => p ++ [10]
+/-! ### what grcov writes -/
 
-/-- the newline-terminated lines of a byte string -/
-def linesAux : Bytes → Bytes → List Bytes
-  | _, [] => []
-  | cur, b :: bs => if b = 10 then cur :: linesAux [] bs else linesAux (cur ++ [b]) bs
+/-- one line of the list: `1,` + the path as `to_string_lossy` shows it + newline -/
+def stdinLine (p : Bytes) : Bytes := [49, 44] ++ Lcov.utf8Lossy p ++ [10]
 
-def lines (bs : Bytes) : List Bytes := linesAux [] bs
+/-- what is written to the merge tool's stdin -/
+def mergeStdin (profiles : List Bytes) : Bytes := profiles.flatMap stdinLine
+
+/-- before fix 4f2eb74: the bare path and a newline -/
+def mergeStdinOld (profiles : List Bytes) : Bytes :=
+  profiles.flatMap fun p => Lcov.utf8Lossy p ++ [10]
+
+/-! ### what llvm-profdata reads -/
+
+/-- `StringRef::split('\n')`: the pieces between newlines, the last one included -/
+def splitNl : Bytes → Bytes → List Bytes
+  | cur, [] => [cur]
+  | cur, b :: bs => if b = 10 then cur :: splitNl [] bs else splitNl (cur ++ [b]) bs
+
+/-- `Data.split(Entries, '\n', -1, /*KeepEmpty=*/false)` -/
+def entries (data : Bytes) : List Bytes := (splitNl [] data).filter fun e => !e.isEmpty
+
+/-- the characters of `trim(" \t\v\f\r")` -/
+def isBlank (b : Nat) : Bool := b = 32 || b = 9 || b = 11 || b = 12 || b = 13
+
+def trimBlank (s : Bytes) : Bytes := ((s.dropWhile isBlank).reverse.dropWhile isBlank).reverse
+
+def isDigit (b : Nat) : Bool := 48 ≤ b && b ≤ 57
+
+/-- `StringRef::getAsInteger(10, uint64_t&)`: `none` = it returns true (failure) -/
+def parseU64 (s : Bytes) : Option Nat :=
+  if s.isEmpty || !s.all isDigit then none
+  else
+    let v := s.foldl (fun a d => a * 10 + (d - 48)) 0
+    if v > U64MAX then none else some v
+
+inductive EntryRes where
+  | comment
+  | file (w : Nat) (f : Bytes)
+  | badWeight
+deriving DecidableEq, Repr
+
+/-- one entry of the list -/
+def parseEntry (e : Bytes) : EntryRes :=
+  let s := trimBlank e
+  if s.head? = some 35 then .comment
+  else if !s.contains 44 then .file 1 s
+  else
+    match parseU64 (s.takeWhile (· ≠ 44)) with
+    | some n => if n < 1 then .badWeight else .file n ((s.dropWhile (· ≠ 44)).drop 1)
+    | none => .badWeight
+
+def collect : List EntryRes → Option (List (Nat × Bytes))
+  | [] => some []
+  | .comment :: rest => collect rest
+  | .badWeight :: _ => none
+  | .file w f :: rest => (collect rest).map fun l => (w, f) :: l
+
+/-- the weighted inputs llvm-profdata takes from a list; `none` = it exits with an error -/
+def parseList (data : Bytes) : Option (List (Nat × Bytes)) := collect ((entries data).map parseEntry)
+
+/-- … and every name must exist (`addWeightedInput`: "No such file or directory") -/
+def resolve (exists_ : Bytes → Bool) (data : Bytes) : Option (List (Nat × Bytes)) :=
+  match parseList data with
+  | some l => if l.all fun wf => exists_ wf.2 then some l else none
+  | none => none
+
+/-! ### the tools and the log -/
+
+structure Tools where
+  /-- `llvm-profdata merge -sparse -o <out>` on the parsed list: the content of `<out>`;
+  `none` = the tool failed (nothing usable written) -/
+  merge : List (Nat × Bytes) → Option Bytes
+  /-- `llvm-cov export <binary> --instr-profile <file with this content> --format lcov` -/
+  export_ : Bytes → Bytes → Option Bytes
+
+inductive Call where
+  | merge (stdin : Bytes)
+  | export_ (binary : Bytes) (profdata : Bytes)
+deriving DecidableEq, Repr
+
+/-- the merged profile of one profile list: llvm-profdata's reading of the stdin grcov wrote -/
+def merged (t : Tools) (ps : List Bytes) : Option Bytes := (parseList (mergeStdin ps)).bind t.merge
+
+/-- `llvm_profiles_to_lcov` for one work item, `bins` = what `find_binaries` returned: the tool
+invocations made, and `Ok(results)` / `Err` -/
+def profilesToLcov (t : Tools) (bins : List Bytes) (ps : List Bytes) : List Call × Option (List Bytes) :=
+  match merged t ps with
+  | none => ([.merge (mergeStdin ps)], none)
+  | some pd => (.merge (mergeStdin ps) :: bins.map (.export_ · pd), some (bins.filterMap (t.export_ · pd)))
+
+/-- the log of a run with several LLVM work items (one per profile kind, any number of workers:
+each call works on its own merged profile) -/
+def runLog (t : Tools) (bins : List Bytes) (items : List (List Bytes)) : List Call :=
+  items.flatMap fun ps => (profilesToLcov t bins ps).1
+
+/-- the export invocations of a log: (binary, content of the profile it was pointed at) -/
+def exportLog : List Call → List (Bytes × Bytes)
+  | [] => []
+  | .export_ b pd :: rest => (b, pd) :: exportLog rest
+  | .merge _ :: rest => exportLog rest
+
+/-- the merge invocations of a log -/
+def mergeLog : List Call → List Bytes
+  | [] => []
+  | .merge s :: rest => s :: mergeLog rest
+  | .export_ _ _ :: rest => mergeLog rest
+
+/-- the items whose merge succeeded, with their merged profile -/
+def mergedItems (t : Tools) (items : List (List Bytes)) : List Bytes := items.filterMap (merged t)
+
+/-- all lcov buffers of a run -/
+def runExports (t : Tools) (bins : List Bytes) (items : List (List Bytes)) : List Bytes :=
+  items.flatMap fun ps => ((profilesToLcov t bins ps).2).getD []
+
+/-! ### the report -/
 
 structure Binary where
   path : Bytes
@@ -35,28 +160,18 @@ def contribution (branch : Bool) (lcov : Bytes) : List (Key × Cov) :=
   | .ok rs => rs
   | _ => []
 
-def report (branch : Bool) (bins : List Binary) : List (Key × Cov) :=
-  addResults id [] ((exports bins).flatMap (contribution branch))
+def reportOf (branch : Bool) (lcovs : List Bytes) : List (Key × Cov) :=
+  addResults id [] (lcovs.flatMap (contribution branch))
 
-theorem linesAux_append_line (cur p : Bytes) (rest : Bytes) (hp : 10 ∉ p) :
-    linesAux cur (p ++ 10 :: rest) = (cur ++ p) :: linesAux [] rest := by
-  induction p generalizing cur with
-  | nil => simp [linesAux]
-  | cons b p ih =>
-    have hb : b ≠ 10 := by intro e; apply hp; simp [e]
-    have hp' : 10 ∉ p := by intro h; apply hp; simp [h]
-    simp only [List.cons_append, linesAux, hb, if_false]
-    rw [ih _ hp']; simp
+def report (branch : Bool) (bins : List Binary) : List (Key × Cov) := reportOf branch (exports bins)
 
-theorem lines_mergeStdin (profiles : List Bytes) (h : ∀ p ∈ profiles, 10 ∉ p) :
-    lines (mergeStdin profiles) = profiles := by
-  induction profiles with
-  | nil => rfl
-  | cons p ps ih =>
-    have : mergeStdin (p :: ps) = p ++ 10 :: mergeStdin ps := by simp [mergeStdin]
-    rw [lines, this, linesAux_append_line _ _ _ (h p (by simp))]
-    simp only [List.nil_append]
-    congr 1
-    exact ih fun q hq => h q (List.mem_cons_of_mem _ hq)
+/-- the report of a run with several LLVM items -/
+def reportRun (branch : Bool) (t : Tools) (bins : List Bytes) (items : List (List Bytes)) : List (Key × Cov) :=
+  reportOf branch (runExports t bins items)
+
+/-- drop later repetitions -/
+def dedup : List Bytes → List Bytes
+  | [] => []
+  | x :: xs => if x ∈ xs then dedup xs else x :: dedup xs
 
 end Grcov.LlvmTools
